@@ -468,8 +468,8 @@ class TexNode(object):
         """
 
         for arg in self.parent.args:
-            if self in arg.contents:
-                arg.remove(self)
+            if any(self.expr is content for content in arg._contents):
+                arg.remove(self.expr)
                 return
         self.parent.remove(self)
 
@@ -589,7 +589,7 @@ class TexNode(object):
         \end{itemize}
         """
         for arg in self.expr.args:
-            if child.expr in arg._contents:
+            if any(child.expr is content for content in arg._contents):
                 arg.insert(arg.remove(child.expr), *nodes)
                 return
         self.expr.insert(
@@ -841,8 +841,16 @@ class TexExpr(object):
         TexExpr('textbf', [])
         """
         self._assert_supports_contents()
-        index = self._contents.index(expr)
-        self._contents.remove(expr)
+        # an expression is looked up by identity, so that a textually equal
+        # sibling is never removed in its place; plain strings by value
+        for index, content in enumerate(self._contents):
+            if content is expr:
+                break
+        else:
+            if isinstance(expr, TexExpr) and not isinstance(expr, str):
+                raise ValueError('%r is not in the contents' % expr)
+            index = self._contents.index(expr)
+        del self._contents[index]
         return index
 
     def _supports_contents(self):
